@@ -18,13 +18,49 @@ static struct run {
         uint64_t target, failed, passed, corrupt_cb;
         int cur, nstart, order_bad;
         char descr[MAXT][48];
-} R;
+} R0, *RP = &R0;
+#define R (*RP)
+/* nested initialisation: while the outer manager's self-test sits in the CORRUPT callback of test nest_at (after the test
+ * vector was staged, before it is used), a second manager is initialised completely - what an overlapping initialisation
+ * on another thread amounts to, made deterministic */
+static int nest_at = -1, nest_done;
+static uint64_t nest_inner_target;
+static struct {
+        uint64_t failed, passed;
+        int pass_bit, err, nstart;
+} NI;
+static void (*nest_init)(IMB_MGR *);
+static uint64_t nest_flags;
+static int cb(void *arg, const IMB_SELF_TEST_CALLBACK_DATA *d);
+static void
+nested_init(void)
+{
+        struct run inner, *save = RP;
+        memset(&inner, 0, sizeof inner);
+        inner.cur = -1;
+        inner.target = nest_inner_target;
+        RP = &inner;
+        IMB_MGR *m2 = alloc_mb_mgr(nest_flags);
+        imb_self_test_set_cb(m2, cb, NULL);
+        nest_init(m2);
+        NI.failed = inner.failed;
+        NI.passed = inner.passed;
+        NI.nstart = inner.nstart;
+        NI.pass_bit = !!(m2->features & IMB_FEATURE_SELF_TEST_PASS);
+        NI.err = m2->imb_errno;
+        free_mb_mgr(m2);
+        RP = save;
+}
 static int
 cb(void *arg, const IMB_SELF_TEST_CALLBACK_DATA *d)
 {
         (void) arg;
         if (!d || !d->phase)
                 return 1;
+        if (RP == &R0 && nest_at >= 0 && !nest_done && !strcmp(d->phase, IMB_SELF_TEST_PHASE_CORRUPT) && R0.cur == nest_at) {
+                nest_done = 1;
+                nested_init();
+        }
         if (!strcmp(d->phase, IMB_SELF_TEST_PHASE_START)) {
                 R.cur++;
                 R.nstart++;
@@ -107,6 +143,7 @@ static long long n_runs, n_distinct;
 static void
 one_run(const cfg_t *c, uint64_t target)
 {
+        RP = &R0;
         memset(&R, 0, sizeof R);
         R.cur = -1;
         R.target = target;
@@ -198,6 +235,31 @@ run_cfg(long item, void *arg)
         for (int a = 0; a < n; a++) {
                 one_run(c, 1ULL << a);
                 sets++;
+        }
+        /* overlapping initialisations: at every test k a second manager of the same configuration is initialised from inside
+         * the outer CORRUPT callback; outer and inner each corrupt test k or nothing (4 combinations): both must report exactly
+         * what they report alone */
+        if (c->variant != -1) {
+                nest_init = c->variant >= 0 ? VARIANTS[c->variant].init : init_mb_mgr_sse;
+                nest_flags = c->flags;
+                for (int k = 0; k < n; k++)
+                        for (int oc = 0; oc < 2; oc++)
+                                for (int ic = 0; ic < 2; ic++) {
+                                        nest_at = k;
+                                        nest_done = 0;
+                                        nest_inner_target = ic ? 1ULL << k : 0;
+                                        memset(&NI, 0, sizeof NI);
+                                        one_run(c, oc ? 1ULL << k : 0); /* checks the outer manager */
+                                        nest_at = -1;
+                                        sets++;
+                                        uint64_t all = (1ULL << n) - 1, it = nest_inner_target;
+                                        if (!nest_done)
+                                                viol(c, "nested-not-run", "CORRUPT callback of the chosen test not reached", 1ULL << k, k);
+                                        else if (NI.nstart != n || NI.failed != it || NI.passed != (all & ~it) || NI.pass_bit != (it == 0) ||
+                                                 NI.err != (it ? IMB_ERR_SELFTEST : 0))
+                                                viol(c, "nested-init-outcome", "a manager initialised while another manager's self-test was in progress did not report exactly its own corrupted tests (x = test index*4 + outer*2 + inner)",
+                                                     it, k * 4 + oc * 2 + ic);
+                                }
         }
         for (int a = 0; a < n; a++)
                 for (int b = a + 1; b < n; b++) {
